@@ -1,4 +1,5 @@
 use log::trace;
+use num_bigint::BigInt;
 use num_traits::Zero;
 use std::collections::HashSet;
 use std::fmt;
@@ -594,8 +595,9 @@ impl ValueMeta for Expression {
                 None => false,
             },
             Number(meta, value) => {
-                let value = FieldElement { value: value.clone() };
-                meta.value_knowledge_mut().set_reduces_to(value)
+                // Literals are field elements: reduce them modulo the prime.
+                let value = modular_arithmetic::add(value, &BigInt::from(0), env.prime());
+                meta.value_knowledge_mut().set_reduces_to(FieldElement { value })
             }
             Call { args, .. } => {
                 // TODO: Handle function calls.
